@@ -301,6 +301,19 @@ pub fn run(ctx: &Ctx) -> Outcome {
                         }
                     }
                 }
+                // ... and the extremes under a SIGNED reading of the bytes: runs of 0x80 (-128) and of 0x7F (+127)
+                for (fill, addrs, tys) in [(0x80u8, [0x8080u16, 0x8001, 0x8000, 0x0080, 0x0000], [0x80u8, 0x81, 0x00]), (0x7F, [0x7F7F, 0x7F7E, 0x7F00, 0x007F, 0x0000], [0x7F, 0x7E, 0x00])] {
+                    for addr in addrs {
+                        for ty in tys {
+                            for last in [fill, fill.wrapping_add(1), fill.wrapping_sub(1), 0x00] {
+                                let mut d = vec![fill; len];
+                                d[len - 1] = last;
+                                check_frame(addr, ty, &d, rep);
+                                rep.count("largest_byte_sums");
+                            }
+                        }
+                    }
+                }
             }
             rep.add("sweep_lengths", 256);
         } else if shard == 258 {
@@ -381,7 +394,7 @@ pub fn run(ctx: &Ctx) -> Outcome {
         floor("all 256 types swept", report.get("sweep_types") == 256 && report.set_len("types") == 256, report.set_len("types")),
         floor("all data lengths 0..=255 swept", report.set_len("data_lengths") == 256, report.set_len("data_lengths")),
         floor("single-byte value sweep ran", report.get("sweep_byte_values") == 256, report.get("sweep_byte_values")),
-        floor("frames with the largest possible byte sums", report.get("largest_byte_sums") == 480, report.get("largest_byte_sums")),
+        floor("frames with the largest possible byte sums", report.get("largest_byte_sums") == 480 * 3, report.get("largest_byte_sums")),
         floor("Data::from(&[u8; N]) probed for N = 4, 5, 255, 256 (present for 4 on the pinned API)", report.get("array_conversions_probed") == 4 && report.get("array_conversions_present") >= 1, report.get("array_conversions_present")),
         floor("try_new lengths incl. > 255", report.get("try_new_over_255_tried") >= 47, report.get("try_new_over_255_tried")),
         floor("try_new lengths around the multiples of 2^8, 2^16, 2^24 (thorough: 2^32)", report.get("try_new_wrap_lengths_tried") >= 40, report.get("try_new_wrap_lengths_tried")),
